@@ -7,6 +7,7 @@ import (
 	"regexp"
 	"sort"
 	"strconv"
+	"strings"
 	"testing"
 	"time"
 
@@ -211,6 +212,10 @@ func TestWorker(t *testing.T) {
 	}
 	out := &WorkerOut{Property: prop, Worker: worker, Seed: seed, Distinct: map[string]int{}, Probes: map[string]int{}, Faults: map[string]int{}, PerFamily: map[string]int{}, PerClass: map[string]int{}, Known: map[string]int{}, KnownWhat: map[string]string{}, KindCount: map[string]int64{}, Extra: map[string]int64{}}
 	start := time.Now()
+	rlog = openRaceLog()
+	if rlog != nil {
+		simrt.OnShutdown = func() { rlog.beforeShutdown = append(rlog.beforeShutdown, rlog.drain()...) }
+	}
 	survey := os.Getenv("VERIF_SURVEY") != ""
 	out.Survey, out.SurveyMsg = map[string]int{}, map[string]string{}
 	seenFP := map[string]bool{}
@@ -246,6 +251,17 @@ func TestWorker(t *testing.T) {
 			wdRunStart = time.Now().UnixNano()
 			res := RunOnce(t, fam, sc, &sched, false)
 			wdRunStart = 0
+			addRaces(rlog, res, sc, out.Extra)
+			if prop == "C13" {
+				// the families also run their own oracles; C13 only judges the race detector's reports
+				kept := res.Viols[:0]
+				for _, v := range res.Viols {
+					if v.Prop == "C13" {
+						kept = append(kept, v)
+					}
+				}
+				res.Viols = kept
+			}
 			if res.HarnessErr != "" {
 				out.HarnessErr = fmt.Sprintf("%s: %s", wdInfo, res.HarnessErr)
 				b, _ := json.Marshal(sc)
@@ -294,7 +310,7 @@ func TestWorker(t *testing.T) {
 				out.Samples = append(out.Samples, b)
 			}
 			for _, v := range res.Viols {
-				if v.Prop != prop && !(prop == "C13") {
+				if v.Prop != prop {
 					// a family shared between properties reports only the property being checked
 					continue
 				}
@@ -319,6 +335,12 @@ func TestWorker(t *testing.T) {
 				rf.Sched.Strategy = "replay"
 				rf.Sched.Decisions = res.Decisions
 				rf.LogHash = fmt.Sprintf("%x", res.LogHash)
+				if rlog != nil {
+					// the race detector reports each pair of stacks once per process, so a violation cannot
+					// be re-observed (hence not minimised) in this process: the driver replays it in a fresh one
+					out.Violations = append(out.Violations, rf)
+					continue
+				}
 				min := minimise(t, fam, &rf, known, minimiseBudget)
 				out.Violations = append(out.Violations, *min)
 			}
@@ -368,6 +390,34 @@ func writeOut(out *WorkerOut) {
 	}
 }
 
+var rlog *raceLog
+
+// addRaces turns the race reports appended during the last run into C13 violations.
+func addRaces(l *raceLog, res *RunResult, sc *Scn, extra map[string]int64) {
+	if l == nil {
+		return
+	}
+	reports := l.beforeShutdown
+	l.beforeShutdown = nil
+	if dropped := l.drain(); len(dropped) > 0 && extra != nil {
+		// reports written while the surviving actors were being released at the end of the run
+		extra["race_reports_during_shutdown_ignored"] += int64(len(dropped))
+	}
+	for _, rr := range reports {
+		if !rr.InLib {
+			if extra != nil {
+				extra["race_reports_outside_library_ignored"]++
+			}
+			continue
+		}
+		if extra != nil {
+			extra["race_reports_in_library"]++
+		}
+		clause := "race:" + rr.A + "+" + rr.B
+		res.Viols = append(res.Viols, Violation{Prop: "C13", FP: "C13|" + sc.Class() + "|" + clause, Clause: clause, Msg: "the race detector reports unsynchronised conflicting accesses inside the library:\n" + strings.TrimSpace(rr.Text)})
+	}
+}
+
 // sameViolation: a candidate reproduces when it violates the same property and clause.
 func findViol(res *RunResult, prop, clause string, known []KnownFinding) *Violation {
 	for i := range res.Viols {
@@ -391,6 +441,7 @@ func minimise(t *testing.T, fam *Family, rf *ReplayFile, known []KnownFinding, b
 		wdRunStart = time.Now().UnixNano()
 		res := RunOnce(t, fam, sc, &s, false)
 		wdRunStart = 0
+		addRaces(rlog, res, sc, nil)
 		if res.HarnessErr != "" {
 			return res, nil
 		}
@@ -599,9 +650,14 @@ func workerReplay(t *testing.T) {
 		os.Exit(2)
 	}
 	trace := os.Getenv("VERIF_TRACE") != ""
+	rlog = openRaceLog()
+	if rlog != nil {
+		simrt.OnShutdown = func() { rlog.beforeShutdown = append(rlog.beforeShutdown, rlog.drain()...) }
+	}
 	wdRunStart = time.Now().UnixNano()
 	res := RunOnce(t, fam, rf.Scenario, &rf.Sched, trace)
 	wdRunStart = 0
+	addRaces(rlog, res, rf.Scenario, nil)
 	type rep struct {
 		Reproduced bool        `json:"reproduced"`
 		SameLog    bool        `json:"same_log"`
